@@ -194,6 +194,24 @@ pub fn judge(case: &Case, acc: &mut Acc) {
                 viol!(acc, P, "tid-mask", case, "conversion from a wider integer does not keep the low 96 bits", format!("{:#x}", x & mask), format!("{back:#x}"));
             }
             let _ = format!("{t} {t:?}");
+            // ids that differ in any of the 96 bits are different ids (Eq / Hash), ids that differ
+            // only above bit 95 are the same id
+            {
+                use std::collections::HashSet;
+                let mut set: HashSet<TransactionId> = HashSet::new();
+                set.insert(t);
+                for bit in 0..96 {
+                    let u = TransactionId::from(x ^ (1u128 << bit));
+                    if u == t || set.contains(&u) {
+                        viol!(acc, P, "tid-equality", case, "two transaction ids that differ in one of their 96 bits compare (or hash) equal", "different", format!("equal with bit {bit} flipped"));
+                        break;
+                    }
+                }
+                let same = TransactionId::from(x ^ (1u128 << 100));
+                if same != t || !set.contains(&same) {
+                    viol!(acc, P, "tid-equality", case, "ids equal in their low 96 bits do not compare (or hash) equal", "equal", "different");
+                }
+            }
             for class in [0u8, 2] {
                 let b = real::builder(class, 1, x).build();
                 let want_tail = &(x & mask).to_be_bytes()[4..16];
